@@ -11,7 +11,7 @@ TECHNIQUE = ("explicit-state BFS over histories of response datagrams and clock 
              "per-datagram contract oracle (cache snapshots taken inside the listener callbacks) against the s.10 "
              "reference model, for passive, self-removing and listener-adding listeners in both registration orders")
 
-CONFIGS = ["passive", "remove:RX", "remove:XR", "add:RX", "add:XR"]
+CONFIGS = ["passive", "remove:RX", "remove:XR", "add:RX", "add:XR", "twice", "twice-removed"]
 
 
 def run(tier: str, seed: int) -> Tuple[Stats, str, List[str], Dict[str, Any]]:
